@@ -512,8 +512,8 @@ type sharder struct {
 // when a proof is broken) and cases_C17h_<n>.v evaluates the coverage of the theorems' hypothesis (proofs/LegacyProofs.v)
 const header = "From Coq Require Import List NArith.\nFrom Verif Require Import model.LegacyTy model.LegacySyntax model.Legacy model.LegacyCorr.\nImport ListNotations.\nOpen Scope N_scope.\nDefinition cases : list (lcase * bool) := ["
 const footer = "].\nDefinition M := Eval vm_compute in mismatches (map fst cases).\nPrint M."
-const headerH = "From Coq Require Import List NArith.\nFrom Verif Require Import model.LegacyTy model.LegacySyntax model.Legacy model.LegacyCorr proofs.LegacyProofs.\nImport ListNotations.\nOpen Scope N_scope.\nDefinition cases : list (lcase * bool) := ["
-const footerH = "].\nDefinition M := Eval vm_compute in hyp_mismatches cases.\nPrint M."
+const headerH = "From Coq Require Import List NArith.\nFrom Verif Require Import model.LegacyTy model.LegacySyntax model.Legacy model.LegacyCorr proofs.LegacyProofs proofs.LegacyRescan.\nImport ListNotations.\nOpen Scope N_scope.\nDefinition cases : list (lcase * bool) := ["
+const footerH = "].\nDefinition M := Eval vm_compute in hyp_mismatches2 cases.\nPrint M."
 
 func (s *sharder) add(coq string, input, impl any) {
 	if s.file == nil {
